@@ -12,6 +12,9 @@ var vwsC12Configs = []vwsConfig{
 	{Name: "random"},
 	{Name: "roundrobin"},
 	{Name: "rfc9218"},
+	{Name: "random"},
+	{Name: "roundrobin"},
+	{Name: "rfc9218"},
 	{Name: "rfc7540", NilCfg: true},
 	{Name: "rfc7540", MaxClosed: 0, MaxIdle: 0},
 	{Name: "rfc7540", MaxClosed: 0, MaxIdle: 10, Throttle: true},
